@@ -617,8 +617,17 @@ def rule_loop_progress(ctx):
                             r = r['e'] if r.get('k') != 'mcall' else r['recv']
                         if r.get('k') == 'path' and r['res'].get('r') == 'local':
                             srcs = fn.binds.get(r['res']['hid'], [])
-                            if any(s[0] == 'proj' for s in srcs):
-                                progress = True
+                            for s_ in srcs:
+                                if s_[0] != 'proj':
+                                    continue
+                                # the value destructured must be the cursor itself (a strict sub-node of it), not something
+                                # looked up elsewhere (a pool of definitions can be cyclic)
+                                root = s_
+                                while root[0] == 'proj':
+                                    root = root[1]
+                                if root[0] == 'expr' and any(x['k'] == 'path' and x['res'].get('hid') == hid for x in walk(root[1])) and \
+                                        not any(x['k'] in ('call', 'mcall') and ctx.pv.local_fns(x.get('callee')) for x in walk(root[1])):
+                                    progress = True
                         # map lookup walk (full_path_prefix): item = *id where id bound from parent map value
                 if exits and (progress or iter_next):
                     obs.append(ok('LOOP-PROGRESS', inst, 'loop advances (%s) and has an exit' % ('sub-term reassignment' if progress else 'iterator next()'), lp.get('sp', '')))
